@@ -223,7 +223,7 @@ def check_rollout(ck, kind, limited, S_):
 def main():
     ck = Check("C04", "on-policy rollout record")
     ck.mode = "REAL"
-    ck.bound(rollout_steps=[2, 3] if ck.thorough else [2], obs_dim=2, state_dim=2, actions=["Discrete(3) (with and without mask)", "Box(2) with symbolic bounds low<=high"],
+    ck.bound(rollout_steps=[2, 3, 4] if ck.thorough else [2], obs_dim=2, state_dim=2, actions=["Discrete(3) (with and without mask)", "Box(2) with symbolic bounds low<=high"],
              time_limit="symbolic N >= 1, symbolic step count", gamma=GAMMA, envs="1 (lanes of a vectorised rollout are C12)")
     ck.stub("environment: Init, T, O, R, Term, Trunc, Mask uninterpreted", "policy: AV (action_and_value), V, PReset uninterpreted, with an explicit policy state",
             "PRNG keys: free algebra, distinct key terms are distinct keys", "callback: CallbackList([])")
@@ -231,10 +231,13 @@ def main():
     for kind, masked, limited in [("discrete", False, True), ("discrete", True, True), ("box", False, True), ("discrete", False, False), ("box", False, False)]:
         with ck.section(f"step@{cfg_name(kind, masked, limited)}"):
             check_step(ck, kind, masked, limited)
-    for S_ in ([2, 3] if ck.thorough else [2]):
+    for S_ in ([2, 3, 4] if ck.thorough else [2]):
         for kind in ("discrete", "box"):
             with ck.section(f"rollout@{kind},S={S_}"):
                 check_rollout(ck, kind, True, S_)
+            if ck.thorough and S_ <= 3:
+                with ck.section(f"rollout@{kind},S={S_},no-timelimit"):
+                    check_rollout(ck, kind, False, S_)
     ck.finish("AbstractActorCriticOnPolicyAlgorithm.step and collect_rollout are traced over an uninterpreted environment (optionally under a TimeLimit with "
               "symbolic limit and count) and an uninterpreted stateful actor-critic policy, from an arbitrary carried state. Every field of the stored row, the "
               "carried state, the reward/bootstrapping rule (gamma*V(successor observation) iff truncated and not terminated), the done flag, resets and "
